@@ -205,9 +205,9 @@ def d3(ck: Check) -> None:
                                                             for v_ in [fm.deref(x_, b_)] for c_ in ast.walk(v_))
                            for x_ in ast.walk(t))
                     for t, p_, b_ in fm.facts(fm.cfgn(n)))]
-    if len(adds) != 1:
+    if not adds or len({text(a_.func.value) for a_ in adds}) != 1 or len({text(a_.args[0]) for a_ in adds}) != 1:
         raise AnalysisError("anchor vanished: hot-lava classification in successions_to_target")
-    ad = adds[0]
+    ad = adds[0]      # (several adds of the same node to the same set -- `if a: add  elif b: add` -- are one classification)
     cn = fm.cfgn(ad)
     loops = [l for l in fm.cfg.enclosing_loops(cn) if isinstance(l, ast.For)]
     s = text(loops[0].target) if loops else "?"
@@ -267,6 +267,8 @@ def d3(ck: Check) -> None:
 
     stale_min: list[str] = []
     pc = fm.pc(cn, atomize=atomize)
+    if len(adds) > 1:
+        pc = logic.Or(*[fm.pc(fm.cfgn(a_), atomize=atomize) for a_ in adds])
     # the target that is classified against is the caller's target
     tgt_rebound = [d_ for d_ in fm.cfg.reaching_defs(tgt, cn) if d_.kind != "entry"]
     ref = logic.Or(logic.Not(logic.B("CONSISTENT")), logic.And(logic.Not(logic.B("GOAL")), logic.B("MINIMAL")))
@@ -299,7 +301,7 @@ def d3(ck: Check) -> None:
     for n_ in own_walk(f.node):
         if isinstance(n_, ast.AugAssign) and text(n_.target) == HOT:
             probs.append(f"line {n_.lineno}: `{text(n_)[:60]}` changes the forbidden set after the classification")
-        elif isinstance(n_, ast.Call) and isinstance(n_.func, ast.Attribute) and text(n_.func.value) == HOT and n_ is not ad \
+        elif isinstance(n_, ast.Call) and isinstance(n_.func, ast.Attribute) and text(n_.func.value) == HOT and n_ not in adds \
                 and n_.func.attr in ("discard", "remove", "pop", "clear", "difference_update", "intersection_update",
                                      "symmetric_difference_update", "add", "update"):
             arg0 = n_.args[0] if n_.args else None
